@@ -13,6 +13,10 @@ fn main() {
     if args.len() < 2 {
         usage();
     }
+    if args[1] == "__first" {
+        let idx = args.get(2).and_then(|s| s.parse::<usize>().ok()).unwrap_or(usize::MAX);
+        std::process::exit(props::c16::child_first(idx));
+    }
     let prop = args[1].clone();
     let mut tier = match std::env::var("VERIF_TIER").ok().as_deref() {
         Some("thorough") => Tier::Thorough,
